@@ -235,10 +235,14 @@ pub fn run(prop: &str, tier: &str) -> i32 {
 pub fn run_into(report: &mut Report, prop: &str, tier: &str, share: f64) {
     let known = KnownFindings::load();
     let audit = audit_hook_coverage();
+    // a primitive the wrappers do not cover is invisible to the scheduler: the exploration is then incomplete
+    // around it (it can still only report real executions). Reported loudly, recorded in the evidence, not a verdict.
     for h in &audit {
-        report
-            .machinery_errors
-            .push(format!("hook-coverage audit: synchronisation primitive outside the wrappers (invisible to the scheduler): {h}"));
+        println!("AUDIT-WARNING: synchronisation primitive outside the hook wrappers (its operations are not scheduling points): {h}");
+    }
+    report.cov("hook_coverage_audit_hits", json!(audit));
+    if !audit.is_empty() {
+        report.and_cov("exhaustive", false);
     }
     let stages = stages(prop, tier);
     let nst = stages.len() + if prop == "C14" || prop == "C08" { 1 } else { 0 };
